@@ -29,7 +29,7 @@ from harness.core import MachineryError
 from harness.tlc import run_tlc, cases, validate_traces
 
 META = dict(
-    spec='Nesting.tla, Trace_Nesting.tla',
+    spec='Nesting.tla, Trace_Nesting.tla, Trace_FullNameHist.tla',
     text='TLC checks exhaustively (all programs of <=N lines over def/async def/class/one-line def/'
          'lambda/comprehension/continuation/comment templates, decorated or not, nesting depth<=D, indent '
          'unit in Units, every token boundary and prefix column; and all programs of <=3 lines holding an '
@@ -1065,6 +1065,103 @@ def report_rejects(ctx, rejects, traces, wheres, srcs, origin):
                                   'table': traces[ti][0]['scopes'] if len(traces[ti][0]['scopes']) < 40 else '...'})
 
 
+# ---------------------------------------------------------------- Trace_FullNameHist.tla: full_name along package changes
+FNH_SRC = ("class Order:\n    class Line:\n        def total(self):\n            return 1\n    def submit(self):\n        return 2\n"
+           "def cancel():\n    return 3\nVALUE = 4\n")
+
+
+def fullname_history(order):
+    """One process: <root>/shop/orders/models.py analysed with the DEFAULT project after every change of which of the
+    two directories is a package.  order: sequence of states (shop_is_pkg, orders_is_pkg)."""
+    import jedi
+    import shutil
+    import tempfile
+    base = os.environ.get('VERIF_CACHE_BASE') or tempfile.gettempdir()
+    root = tempfile.mkdtemp(prefix='c18fnh_', dir=base)
+    d = os.path.join(root, 'shop', 'orders')
+    os.makedirs(d)
+    path = os.path.join(d, 'models.py')
+    with open(path, 'w') as f:
+        f.write(FNH_SRC)
+    quals = {}
+    tree = ast.parse(FNH_SRC)
+
+    def walk(node, prefix):
+        for ch in getattr(node, 'body', []):
+            if isinstance(ch, (ast.ClassDef, ast.FunctionDef)):
+                q = prefix + [ch.name]
+                quals[(ch.lineno, ch.col_offset + (6 if isinstance(ch, ast.ClassDef) else 4))] = '.'.join(q)
+                if isinstance(ch, ast.ClassDef):
+                    walk(ch, q)
+    walk(tree, [])
+    events = []
+    try:
+        for step, (shop_pkg, orders_pkg) in enumerate(order):
+            for dd, flag in ((os.path.join(root, 'shop'), shop_pkg), (d, orders_pkg)):
+                init = os.path.join(dd, '__init__.py')
+                if flag and not os.path.exists(init):
+                    open(init, 'w').close()
+                elif not flag and os.path.exists(init):
+                    os.unlink(init)
+            # Python's package rule on the files as they are now
+            parts = ['models']
+            if orders_pkg:
+                parts.insert(0, 'orders')
+                if shop_pkg:
+                    parts.insert(0, 'shop')
+            s = jedi.Script(FNH_SRC, path=path, environment=jutil.env())
+            r = jutil.safe(lambda: s.get_names(all_scopes=True, definitions=True))
+            if r[0] == 'exc':
+                events.append({'blocked': r[2]})
+                continue
+            for n in r[1]:
+                q = quals.get((n.line, n.column))
+                if q is None:
+                    continue
+                fn = jutil.safe(lambda: n.full_name)
+                got = fn[1] if fn[0] == 'ok' else None
+                events.append({'step': step, 'state': [shop_pkg, orders_pkg], 'got': jutil.enc(got) if got else [],
+                               'want': jutil.enc('.'.join(parts) + '.' + q)})
+    finally:
+        shutil.rmtree(root, True)
+    return events
+
+
+def fullname_histories(ctx):
+    import itertools
+    states = [(False, False), (False, True), (True, True), (True, False)]
+    orders = [list(p) for p in itertools.permutations(states, 2)] + [[a, b, a] for a in states for b in states if a != b][::2]
+    if not ctx.quick:
+        orders += [list(p) for p in itertools.permutations(states, 3)]
+    obs = jutil.pmap(fullname_history, orders, chunksize=2)
+    jutil.check_worker_errors(obs)
+    traces, owners = [], []
+    for order, evs in zip(orders, obs):
+        t = [e for e in evs if 'blocked' not in e]
+        if t:
+            traces.append([{k: e[k] for k in ('step', 'got', 'want')} for e in t])
+            owners.append((order, t))
+    ctx.coverage['fullname_histories'] = len(orders)
+    ctx.coverage['fullname_history_names'] = sum(len(t) for t in traces)
+    if sum(len(t) for t in traces) < 100:
+        raise MachineryError('vacuity: only %d full names observed along package histories' % sum(len(t) for t in traces))
+    vs = validate_traces('Trace_FullNameHist', 'Trace_FullNameHist.cfg', traces, ctx, 'Trace_FullNameHist')
+    for v, (order, t) in zip(vs, owners):
+        if not v['accepted']:
+            e = t[(v['at'] or 1) - 1]
+            first = e['step'] == 0
+            ctx.violation('full-name-history:%s' % ('first-script' if first else 'after-package-change'),
+                          'full_name does not follow the package structure of the files as they are now',
+                          {'states (shop is package, orders is package)': order, 'step': e['step'],
+                           'got': jutil.dec(e['got']), 'want': jutil.dec(e['want'])})
+    bad = [dict(traces[0][0], got=jutil.enc('somewhere.else.X'))]
+    n0 = ctx.coverage['traces_validated_against_impl']
+    bv = validate_traces('Trace_FullNameHist', 'Trace_FullNameHist.cfg', [bad], ctx, 'binding self-test (full-name history)')
+    ctx.coverage['traces_validated_against_impl'] = n0
+    if bv[0]['accepted']:
+        raise MachineryError('binding self-test: wrong full_name accepted')
+
+
 # ---------------------------------------------------------------- main
 def run(ctx):
     quick = ctx.quick
@@ -1430,4 +1527,5 @@ def run(ctx):
         'the sys.path the Script works with (jedi picks the shortest)',
         'corpus: identifier tokens of tokenize; files whose def/async layout the table builder cannot '
         'read are skipped and counted']
+    fullname_histories(ctx)
     return None
